@@ -73,6 +73,26 @@ Theorem missing_value_default : forall D k t s d,
     rbind (write_val k d (sio s)) (fun w => Ok (d, set_io (set_ix s (aupd t Used (c_ix s))) w)).
 Proof. exact missing_key_default. Qed.
 
+(* The deserialiser never overwrites: from the empty description ([dinv], [init_dinv]) every
+   step -- hence every run -- only extends the ROOT description ([vext]: every key and every list
+   element present before is present, unchanged, afterwards; new keys / appended elements only);
+   a write under the invariant creates a fresh key or appends, it never replaces. *)
+Theorem des_never_overwrites : forall A (p : prog A), prog_ok p ->
+  forall s a s', dinv s -> wf s -> run des_step p s = Ok (a, s') ->
+  dinv s' /\ vexts (root s) (root s').
+Proof. exact des_never_overwrites. Qed.
+Theorem des_step_never_overwrites : forall o s r s',
+  dinv s -> wf s -> des_step o s = Ok (r, s') -> dinv s' /\ vext (root s) (root s').
+Proof. exact des_step_never_overwrites. Qed.
+Theorem des_write_is_fresh : forall t v s s', dinv_c (c_f s) (c_ix s) -> set_value t v s = Ok s' ->
+  (alookup t (c_ix s) = None /\ alookup t (c_f s) = None /\
+     s' = set_fix s (aupd t v (c_f s)) (aupd t Used (c_ix s))) \/
+  (exists l, alookup t (c_ix s) = Some (Nxt (length l)) /\ alookup t (c_f s) = Some (VL l) /\
+     s' = set_fix s (aupd t (VL (l ++ [v])) (c_f s)) (aupd t (Nxt (S (length l))) (c_ix s))).
+Proof. exact set_value_fresh. Qed.
+Theorem des_initial_state_ok : forall bs, dinv (init_st 0 [] bs) /\ wf (init_st 0 [] bs).
+Proof. exact (fun bs => conj (init_dinv bs) (init_wf 0 [] bs I)). Qed.
+
 (* a second write to a plain target is ReusedTargetError (both interpreters) *)
 Theorem C21_second_write_is_ReusedTarget : forall t v s,
   alookup t (c_ix s) = Some Used -> set_value t v s = Err EReused.
